@@ -95,6 +95,10 @@ func (v *StructSchema) process(ctx *p.SchemaCtx) {
 		}
 		dataProv = newDp
 	}
+	// an empty record (i.e the JSON body `{}`) is handed over as a nil provider: every field is absent
+	if dataProv == nil {
+		dataProv = &p.EmptyDataProvider{}
+	}
 
 	// 3. Process / validate struct fields
 	structVal := reflect.ValueOf(ctx.ValPtr).Elem()
